@@ -458,7 +458,13 @@ def stepU (s : St α) : Op → Option (St α × String)
   | .uSetCoef op a d e =>
     let ra := uGet env s a; let re := eGet env s e
     let F := F0 env
-    let v := if op == "set" then UPoly.setCoef F ra.val d re.val
+    -- `IncrementCoef` / `DecrementCoef` add to / subtract from the coefficient object in place; with a scalar that
+    -- carries an error or belongs to another field object that element operation fails and the coefficient stays
+    -- as it is (no error reaches the polynomial: the PF-18 family). A zero or absent coefficient is replaced by a copy
+    -- of the scalar. (Scalars of another implementation type are not generated for these operations.)
+    let stuck := op != "set" && !goodScalar re && !re.foreign && !F.isZero (UPoly.coef F ra.val d)
+    let v := if stuck then ra.val
+             else if op == "set" then UPoly.setCoef F ra.val d re.val
              else if op == "inc" then UPoly.incCoef F ra.val d re.val
              else UPoly.decCoef F ra.val d re.val
     let r := { ra with val := v }
@@ -680,7 +686,11 @@ def stepB (s : St α) : Op → Option (St α × String)
   | .bSetCoef op a d e =>
     let ra := bGet s a; let re := eGet env s e
     let F := F0 env
-    let v := if op == "set" then BPoly.setCoef F ra.val d re.val
+    -- as in the univariate case: a present term is changed through its coefficient object, which refuses an
+    -- unusable scalar; an absent term receives a copy of the scalar
+    let stuck := op != "set" && !goodScalar re && !re.foreign && ra.val.any (·.1 == d)
+    let v := if stuck then ra.val
+             else if op == "set" then BPoly.setCoef F ra.val d re.val
              else if op == "inc" then BPoly.incCoef F ra.val d re.val
              else BPoly.decCoef F ra.val d re.val
     let r := { ra with val := v }
